@@ -10,6 +10,7 @@ set -u
 patch="$(readlink -f "$1")"; shift
 export GOFLAGS=-mod=mod GOPROXY=off GOSUMDB=off GOTOOLCHAIN=local
 root="${PM_ROOT:-/tmp/pm}"
+V="${PM_SRC:-/verif}"
 mkdir -p "$root"
 S=$(mktemp -d "$root/m.XXXXXX")
 cleanup() {
@@ -23,12 +24,12 @@ if ! git -C "$S/repo" apply "$patch" 2>"$S/apply.err"; then
   echo "PATCH-DOES-NOT-APPLY $patch"; head -5 "$S/apply.err"; exit 4
 fi
 mkdir -p "$S/v/bin"
-sed -e "s#=> /repo/v2#=> $S/repo/v2#" -e "s#=> /repo\$#=> $S/repo#" /verif/go.mod > "$S/v/go.mod"
-cp /verif/go.sum "$S/v/go.sum"
-cp /verif/known_findings.json "$S/v/"
-cp -r /verif/findings "$S/v/findings"
+sed -e "s#=> /repo/v2#=> $S/repo/v2#" -e "s#=> /repo\$#=> $S/repo#" $V/go.mod > "$S/v/go.mod"
+cp $V/go.sum "$S/v/go.sum"
+cp $V/known_findings.json "$S/v/"
+cp -r $V/findings "$S/v/findings"
 [ -x /verif/bin/legacygen ] && cp /verif/bin/legacygen "$S/v/bin/legacygen"
-cd /verif
+cd $V
 for c in "$@"; do
   variant=plain; flags=()
   if [ "$c" = C06 ] || [ "${VERIF_RACE:-}" = 1 ]; then variant=race; flags=(-race); fi
